@@ -320,6 +320,14 @@ func (x *Unit) finishCall(st *State, pc *preparedCall) []Term {
 	case "builtin":
 		return x.builtin(st, pc)
 	case "lit":
+		if x.litActive == nil {
+			x.litActive = map[*ast.FuncLit]int{}
+		}
+		if x.litActive[pc.lit] >= 1 {
+			return x.recursiveLit(st, pc)
+		}
+		x.litActive[pc.lit]++
+		defer func() { x.litActive[pc.lit]-- }()
 		return x.inlineBody(st, pc.lit.Body, pc.lit.Type, pc.sig, nil, nil, pc.args, pc.call, false)
 	case "special":
 		return x.specialCall(st, pc)
@@ -1445,6 +1453,16 @@ func (x *Unit) callMods(e *ast.CallExpr, ms *modSet) {
 	if id, ok := ast.Unparen(e.Fun).(*ast.Ident); ok {
 		if v, ok := x.info.ObjectOf(id).(*types.Var); ok {
 			if fl, ok := x.closureBind[v]; ok {
+				if x.litModsBusy == nil {
+					x.litModsBusy = map[*ast.FuncLit]bool{}
+				}
+				if x.litModsBusy[fl] {
+					// recursive call of the literal whose write set is being computed: it adds nothing new
+					ms.comps["alloc"] = true
+					return
+				}
+				x.litModsBusy[fl] = true
+				defer delete(x.litModsBusy, fl)
 				sub := x.modsOf(fl.Body)
 				for c := range sub.comps {
 					ms.comps[c] = true
@@ -1687,4 +1705,148 @@ func (x *Unit) resolveTypeAny(s string) types.Type {
 		}
 	}
 	panic(unsupportedErr{"cannot resolve type " + s})
+}
+
+// recursiveLit handles a call of a function literal from inside its own body (recursion through the closure variable the
+// literal is bound to). The literal is checked under the frame contract derived from its syntactic write set W: "true" as pre-
+// and postcondition, modifies W. By induction on the recursion depth: the first recursive call havocs W and runs the body once
+// more from that arbitrary state (so every obligation of the body is generated for the state of an arbitrary recursion level,
+// not only for the state of the first call); a recursive call met while doing so havocs W and goes on. After the call W is
+// arbitrary again. Sound for safety, frame and panic edges under partial correctness; it says nothing about what the recursion computes.
+func (x *Unit) recursiveLit(st *State, pc *preparedCall) []Term {
+	fl := pc.lit
+	ms := x.modsOf(fl.Body)
+	ms.comps["alloc"] = true
+	havoc := func() {
+		// Map writes of the body that go through a variable the body never assigns change that one map object only: the
+		// map components are havocked at that reference and nowhere else (another map of the same type - a field of the
+		// receiver, say - keeps its contents). Applies only when the body calls nothing but builtins and itself.
+		targets := x.mapWriteTargets(st, fl.Body, ms)
+		before := map[string]Term{}
+		for c := range targets {
+			before[c] = x.get(st, c)
+		}
+		x.havocForLoop(st, ms, fl.Body)
+		for c, ref := range targets {
+			x.set(st, c, Store(before[c], ref, Select(x.get(st, c), ref)))
+		}
+	}
+	havoc()
+	if x.litActive[fl] == 1 {
+		inLit := func(o types.Object) bool { return o != nil && o.Pos() >= fl.Pos() && o.Pos() <= fl.End() }
+		saved := map[types.Object]Term{}
+		for o, t := range st.vars {
+			if inLit(o) {
+				saved[o] = t
+			}
+		}
+		x.litActive[fl]++
+		x.inlineBody(st, fl.Body, fl.Type, pc.sig, nil, nil, pc.args, pc.call, false)
+		x.litActive[fl]--
+		if !st.dead() {
+			for o := range st.vars {
+				if inLit(o) {
+					delete(st.vars, o)
+				}
+			}
+			for o, t := range saved {
+				st.vars[o] = t
+			}
+			havoc()
+		}
+	}
+	var rets []Term
+	for i := 0; i < pc.sig.Results().Len(); i++ {
+		rt := pc.sig.Results().At(i).Type()
+		rets = append(rets, x.freshVal("rec", x.U.SortOf(rt), rt))
+	}
+	return rets
+}
+
+// mapWriteTargets: map component -> the single reference at which the statements under root write it, when that can be read
+// off the syntax: every map write is `v[k] = ...` through a variable v that is never assigned under root, and root calls nothing
+// but builtins (not delete/clear) and function literals bound to a local variable whose bodies satisfy the same condition.
+func (x *Unit) mapWriteTargets(st *State, root ast.Node, ms *modSet) map[string]Term {
+	out := map[string]Term{}
+	ok := true
+	perComp := map[string]*types.Var{}
+	seen := map[*ast.FuncLit]bool{}
+	note := func(e ast.Expr) {
+		ix, isIx := ast.Unparen(e).(*ast.IndexExpr)
+		if !isIx {
+			return
+		}
+		mt, isMap := x.typeOf(ix.X).Underlying().(*types.Map)
+		if !isMap {
+			return
+		}
+		d, v, c, _, _ := x.mapComps(mt)
+		id, isId := ast.Unparen(ix.X).(*ast.Ident)
+		if !isId {
+			ok = false
+			return
+		}
+		vr, isVar := x.info.ObjectOf(id).(*types.Var)
+		if !isVar || ms.vars[vr] || x.isPkgLevel(vr) {
+			ok = false
+			return
+		}
+		for _, k := range []string{d, v, c} {
+			if o, have := perComp[k]; have && o != vr {
+				ok = false
+			}
+			perComp[k] = vr
+		}
+	}
+	var walk func(n ast.Node) bool
+	walk = func(n ast.Node) bool {
+		switch n := n.(type) {
+		case *ast.AssignStmt:
+			for _, l := range n.Lhs {
+				note(l)
+			}
+		case *ast.IncDecStmt:
+			note(n.X)
+		case *ast.CallExpr:
+			if tv, isT := x.info.Types[n.Fun]; isT && tv.IsType() {
+				return true
+			}
+			if b, isB := x.calleeObj(n).(*types.Builtin); isB {
+				if b.Name() == "delete" || b.Name() == "clear" {
+					ok = false
+				}
+				return true
+			}
+			if id, isId := ast.Unparen(n.Fun).(*ast.Ident); isId {
+				if vr, isVar := x.info.ObjectOf(id).(*types.Var); isVar {
+					if fl, bound := x.closureBind[vr]; bound {
+						if !seen[fl] {
+							seen[fl] = true
+							ast.Inspect(fl.Body, walk)
+						}
+						return true
+					}
+				}
+			}
+			ok = false
+		case *ast.GoStmt, *ast.DeferStmt, *ast.StarExpr:
+			ok = false
+		}
+		return true
+	}
+	ast.Inspect(root, walk)
+	if !ok {
+		return map[string]Term{}
+	}
+	for c, vr := range perComp {
+		if _, have := x.compSorts[c]; have {
+			if _, assigned := st.vars[vr]; assigned {
+				out[c] = x.readVar(st, vr)
+			}
+		}
+	}
+	if len(out) != len(perComp) {
+		return map[string]Term{}
+	}
+	return out
 }
